@@ -50,6 +50,12 @@ def apply(toks, au, opts):
             out += [t, toks[i + 1], toks[i + 2], Tok("id", "vx_from_vec", "")]
             i += 4
             continue
+        # BytesMut::from(E)  ->  BytesMut::vx_from_slice(E)   (From<&[u8]> for BytesMut)
+        if is_id(t, "BytesMut") and texts(toks, i + 1, 4) == [":", ":", "from", "("]:
+            au.note("R", "BytesMut::from(slice) -> BytesMut::vx_from_slice(slice)")
+            out += [t, toks[i + 1], toks[i + 2], Tok("id", "vx_from_slice", "")]
+            i += 4
+            continue
         out.append(t)
         i += 1
     toks = out
